@@ -3,6 +3,7 @@
 package cq
 
 import (
+	"encoding/hex"
 	"fmt"
 	"math/rand"
 	"os"
@@ -80,3 +81,44 @@ func Seed() int64 {
 func Rand() *rand.Rand { return rand.New(rand.NewSource(Seed())) }
 
 func Thorough() bool { return os.Getenv("VERIF_TIER") == "thorough" }
+
+// EncodeRuns renders bytes as hex with "(r<count>x<byte>)" for long uniform runs (JSON case files).
+func EncodeRuns(b []byte) string {
+	var sb strings.Builder
+	i := 0
+	for i < len(b) {
+		j := i
+		for j < len(b) && b[j] == b[i] {
+			j++
+		}
+		if j-i >= 64 {
+			fmt.Fprintf(&sb, "(r%dx%d)", j-i, b[i])
+			i = j
+			continue
+		}
+		sb.WriteString(hex.EncodeToString(b[i : i+1]))
+		i++
+	}
+	return sb.String()
+}
+
+// DecodeRuns is the inverse of EncodeRuns.
+func DecodeRuns(s string) []byte {
+	var out []byte
+	for len(s) > 0 {
+		if s[0] == '(' {
+			end := strings.IndexByte(s, ')')
+			var n, b int
+			fmt.Sscanf(s[1:end], "r%dx%d", &n, &b)
+			for k := 0; k < n; k++ {
+				out = append(out, byte(b))
+			}
+			s = s[end+1:]
+			continue
+		}
+		v, _ := hex.DecodeString(s[:2])
+		out = append(out, v[0])
+		s = s[2:]
+	}
+	return out
+}
